@@ -96,6 +96,13 @@ Swap ==
     /\ UNCHANGED <<store, nonce, chal, dflt>>
     /\ ev' = [op |-> "Swap", out |-> "ok"]
 
+\* a session of object kf is attempted while its file is malformed (31 bytes) and fails; the file is put back
+\* as it was.  Nothing is left behind: the next session of the object opens, uses and releases the key its
+\* file holds then (so a later Swap still takes effect for this object).
+FailedOpen(kf) ==
+    /\ UNCHANGED <<store, nonce, chal, onfile, dflt>>
+    /\ ev' = [op |-> "FailedOpen", key |-> kf, out |-> "error"]
+
 Decrypt(kf, i) ==
     LET key == onfile[kf]
         r == DecryptV(key, store[i].sv) IN
@@ -116,6 +123,13 @@ DecryptTruncated(i) ==
     /\ UNCHANGED <<store, nonce, chal, onfile, dflt>>
     /\ ev' = [op |-> "DecryptTruncated", i |-> i,
               out |-> IF PadOk(SubSeq(store[i].pt, 1, 16)) THEN "ok" ELSE "error"]
+
+\* a real AES ciphertext with n more bytes after its last block (1 <= n <= 15: no longer a whole number of
+\* blocks): rejected, whatever the appended bytes are - the genuine blocks in front must not be honoured
+DecryptExtended(i, n) ==
+    /\ store[i].sv.m = "aes"
+    /\ UNCHANGED <<store, nonce, chal, onfile, dflt>>
+    /\ ev' = [op |-> "DecryptExtended", i |-> i, n |-> n, out |-> "error"]
 
 \* malformed ciphertexts handed to KeyFile.decrypt
 BadCts == {[m |-> "aes", ct |-> [k |-> "raw", y |-> PT(0, 0)]],       \* empty
@@ -190,6 +204,8 @@ Next ==
     \/ Tick /\ Swap
     \/ \E k \in Keys, sv \in BadCts : Tick /\ DecryptBad(k, sv)
     \/ \E i \in DOMAIN store : Tick /\ DecryptTruncated(i)
+    \/ \E k \in Keys : Tick /\ FailedOpen(k)
+    \/ \E i \in DOMAIN store, n \in {1, 15} : Tick /\ DecryptExtended(i, n)
     \/ \E s \in StoredShapes, fm \in Methods : Tick /\ LoadStored(s, fm)
     \/ \E k \in Keys, m \in Methods, p \in PairPlaintexts, nested \in BOOLEAN : Tick /\ EncryptPair(k, m, p, nested)
     \/ \E a \in Algs, p \in SecretNames : Tick /\ Assign(a, p)
@@ -220,6 +236,7 @@ C08_XorInvolution ==
         /\ \A i \in DOMAIN p : c[i] = p[i] ^^ KeyBytes(k)[((i - 1) % 32) + 1]
 C08_MalformedRejected ==
     /\ ev.op = "DecryptBad" => ev.out = "error"
+    /\ ev.op = "DecryptExtended" => ev.out = "error"
     /\ (ev.op = "DecryptTruncated" /\ ~PadOk(SubSeq(store[ev.i].pt, 1, 16))) => ev.out = "error"
     /\ (ev.op = "LoadStored" /\ ev.shape \notin {"none", "plain-str"}) => ev.out = "error"
 
